@@ -1,1 +1,307 @@
 // contracts and harnesses for src/memory.rs (included as multiqueue2::memory::verif_contracts)
+//
+// Epoch contract of the deferred-reclamation manager (S13) and ghost accessors.
+
+use super::*;
+use crate::verif_hooks::*;
+
+impl MemoryManager {
+    pub(crate) fn vf_epoch(&self) -> usize {
+        self.epoch.peek()
+    }
+    pub(crate) fn vf_set_epoch(&self, e: usize) {
+        self.epoch.poke(e)
+    }
+    #[cfg(kani)]
+    pub(crate) unsafe fn vf_inner(&self) -> &mut MemoryManagerInner {
+        self.mem_manager.peek()
+    }
+    pub(crate) unsafe fn vf_ntokens(&self) -> usize {
+        self.mem_manager.peek().tokens.len()
+    }
+    pub(crate) unsafe fn vf_has_token(&self, t: *const MemToken) -> bool {
+        let inner = self.mem_manager.peek();
+        let mut i = 0;
+        let mut found = false;
+        while i < inner.tokens.len() {
+            if inner.tokens[i] == t {
+                found = true;
+            }
+            i += 1;
+        }
+        found
+    }
+    pub(crate) unsafe fn vf_waiting(&self) -> usize {
+        self.wait_to_free.peek().len()
+    }
+    pub(crate) unsafe fn vf_tofree(&self) -> usize {
+        self.mem_manager.peek().tofree.len()
+    }
+    pub(crate) unsafe fn vf_inner_epoch(&self) -> usize {
+        self.mem_manager.peek().epoch
+    }
+    /// harness-side: give the manager's vectors their capacity before anything is stored in them
+    pub(crate) unsafe fn vf_reserve(&self) {
+        self.mem_manager.peek().tokens.reserve(8);
+        self.mem_manager.peek().tofree.reserve(24);
+        self.wait_to_free.peek().reserve(24);
+    }
+    pub(crate) fn vf_signal_bits(&self) -> usize {
+        self.signal.vf_bits()
+    }
+}
+
+impl MemoryManager {
+    pub(crate) unsafe fn vf_token_epoch(t: *const MemToken) -> usize {
+        (*t).epoch.peek()
+    }
+    pub(crate) unsafe fn vf_set_token_epoch(t: *const MemToken, e: usize) {
+        (*t).epoch.poke(e)
+    }
+}
+
+/// Stand-in for `ToFree::delete` in proof harnesses (installed with #[kani::stub]).
+/// ASSUMED contract of delete: run the destructor of each of the `num_param` elements, then hand the
+/// memory back through `alloc::deallocate`.  The real body performs exactly that through a stored
+/// function pointer, which CBMC resolves against every address-taken function of the same shape
+/// (core::fmt included) and does not finish; the stand-in selects the element type by comparing the
+/// stored pointer with the pointers `ToFree::new::<T>` produces for the types the crate retires.
+pub(crate) fn vf_delete_stub(this: ToFree) {
+    unsafe {
+        let f = this.freer as usize;
+        if f == ToFree::new::<MemToken>(ptr::null_mut(), 0).freer as usize {
+            MemoryManager::vf_free_as::<MemToken>(this.mem, this.num_param);
+        } else if f == ToFree::new::<u64>(ptr::null_mut(), 0).freer as usize {
+            MemoryManager::vf_free_as::<u64>(this.mem, this.num_param);
+        } else if !crate::read_cursor::ReadCursor::vf_delete_dispatch(f, this.mem, this.num_param) {
+            panic!("ToFree::delete stand-in: element type not known to the harness");
+        }
+    }
+}
+
+impl MemoryManager {
+    pub(crate) unsafe fn vf_free_as<F>(pt: *mut u8, num: usize) {
+        let to_free: *mut F = pt as *mut F;
+        let mut i = 0;
+        while i < num {
+            ptr::read(to_free.add(i));
+            i += 1;
+        }
+        alloc::deallocate(to_free, num);
+    }
+
+    pub(crate) fn vf_freer_of<T>() -> usize {
+        ToFree::new::<T>(ptr::null_mut(), 0).freer as usize
+    }
+}
+
+/// Arbitrary manager state for the epoch contract: `nt` registered tokens with symbolic epochs,
+/// symbolic global / batch epochs, `m` retired objects in the batch awaiting reclamation, `wlen`
+/// objects on the waiting list.  Objects are 8-byte allocations tracked by the allocation ledger.
+pub(crate) struct MmState {
+    pub m: MemoryManager,
+    pub tok: [*const MemToken; 2],
+    pub tok_epoch: [usize; 2],
+    pub nt: usize,
+    pub e: usize,
+    pub ie: usize,
+    pub batch: [usize; 2],
+    pub nbatch: usize,
+    pub wlen: usize,
+}
+
+pub(crate) unsafe fn mm_arbitrary(nt: usize, nbatch: usize, wlen: usize) -> MmState {
+    ledger::ON = true;
+    ledger::CAP_USED = ledger::CAP;
+    let m = MemoryManager::new();
+    m.vf_reserve();
+    let e: usize = rt::oracle_usize();
+    let ie: usize = rt::oracle_usize();
+    rt::assume(e < usize::MAX - 4);
+    // the batch epoch trails the global epoch by at most one bump
+    rt::assume(ie == e || (e > 0 && ie == e - 1));
+    m.epoch.poke(e);
+    let mut st = MmState { m, tok: [ptr::null(); 2], tok_epoch: [0; 2], nt, e, ie, batch: [0; 2], nbatch, wlen };
+    let mut i = 0;
+    while i < nt {
+        let t = st.m.get_token();
+        let te: usize = rt::oracle_usize();
+        (*t).epoch.poke(te);
+        st.tok[i] = t;
+        st.tok_epoch[i] = te;
+        i += 1;
+    }
+    {
+        let inner = st.m.mem_manager.peek();
+        inner.epoch = ie;
+        let mut j = 0;
+        while j < nbatch {
+            let o: *mut u64 = alloc::allocate(1);
+            st.batch[j] = o as usize;
+            inner.tofree.push(ToFree::new(o, 1));
+            j += 1;
+        }
+    }
+    {
+        let wl = st.m.wait_to_free.peek();
+        let mut j = 0;
+        while j < wlen {
+            let o: *mut u64 = alloc::allocate(1);
+            wl.push(ToFree::new(o, 1));
+            j += 1;
+        }
+    }
+    st
+}
+
+unsafe fn is_live(addr: usize) -> bool {
+    let mut i = 0;
+    let mut r = false;
+    while i < ledger::CAP_USED {
+        if ledger::LIVE_ADDR[i] == addr {
+            r = true;
+        }
+        i += 1;
+    }
+    r
+}
+
+/// Contract of MemoryManager::free (the only place where retired memory is ever deallocated):
+///  * the object handed in is NOT deallocated by this call (it waits at least one full epoch round)
+///  * the batch is deallocated iff at least one token is registered and EVERY registered token has
+///    announced the current global epoch; then each batch object is deallocated exactly once, the
+///    batch epoch catches up and the epoch flag is cleared; otherwise nothing is deallocated
+///  * a new batch is started (waiting list becomes the batch, global epoch +1, epoch flag raised)
+///    only when more than 20 objects wait and the previous batch is gone
+pub(crate) unsafe fn s_mm_free(nt: usize, nbatch: usize, wlen: usize) {
+    let st = mm_arbitrary(nt, nbatch, wlen);
+    let sig0: usize = rt::oracle_usize();
+    rt::assume(sig0 < 4);
+    st.m.signal.vf_set_bits(sig0);
+    let obj: *mut u64 = alloc::allocate(1);
+    let live0 = ledger::LIVE_N;
+    let bad0 = ledger::BAD_FREE;
+
+    st.m.free(obj, 1);
+
+    assert!(ledger::BAD_FREE == bad0, "C16: double free");
+    assert!(is_live(obj as usize), "C16: an object is deallocated in the very call that retires it");
+    let mut all = nt > 0;
+    let mut i = 0;
+    while i < nt {
+        if st.tok_epoch[i] != st.e {
+            all = false;
+        }
+        assert!((*st.tok[i]).epoch.peek() == st.tok_epoch[i], "free never touches a token");
+        i += 1;
+    }
+    let mut j = 0;
+    while j < nbatch {
+        assert!(is_live(st.batch[j]) == !all, "C16: the batch is reclaimed exactly when every registered token has announced the current epoch");
+        j += 1;
+    }
+    let ie1 = if all { st.e } else { st.ie };
+    let started = wlen + 1 > 20 && ie1 == st.e;
+    assert!(st.m.vf_inner_epoch() == ie1);
+    if started {
+        assert!(st.m.vf_epoch() == st.e + 1 && st.m.vf_waiting() == 0 && st.m.vf_tofree() == wlen + 1, "C17: a full waiting list becomes the next batch and the epoch is bumped");
+        assert!(st.m.vf_signal_bits() & 1 == 1, "C16: handles are told to announce the new epoch");
+        assert!(ledger::LIVE_N == live0 - (if all { nbatch } else { 0 }), "C16: starting a batch deallocates nothing");
+    } else {
+        assert!(st.m.vf_epoch() == st.e && st.m.vf_waiting() == wlen + 1);
+        assert!(st.m.vf_tofree() == if all { 0 } else { nbatch });
+        assert!(st.m.vf_signal_bits() & 1 == if all { 0 } else { sig0 & 1 }, "C16: the epoch flag is cleared exactly when the batch was reclaimed");
+    }
+    assert!(st.m.vf_signal_bits() & 2 == sig0 & 2, "C13: epoch traffic never touches the no-reader flag");
+    mem::forget(st);
+}
+
+/// get_token / update_token / remove_token
+pub(crate) unsafe fn s_mm_tokens(nt: usize) {
+    let st = mm_arbitrary(nt, 1, 0);
+    let t = st.m.get_token();
+    assert!(st.m.vf_ntokens() == nt + 1 && st.m.vf_has_token(t), "C16: a new handle's token is registered");
+    assert!((*t).epoch.peek() == st.e, "C16: a new token starts at the current epoch (it cannot hold references older than that)");
+    let te: usize = rt::oracle_usize();
+    (*t).epoch.poke(te);
+    st.m.update_token(t);
+    assert!((*t).epoch.peek() == st.e, "C16: update_token announces the current epoch");
+    let mut i = 0;
+    while i < nt {
+        assert!((*st.tok[i]).epoch.peek() == st.tok_epoch[i] && st.m.vf_has_token(st.tok[i]), "other tokens untouched");
+        i += 1;
+    }
+    let w0 = st.m.vf_waiting();
+    let bad0 = ledger::BAD_FREE;
+    st.m.remove_token(t);
+    assert!(!st.m.vf_has_token(t) && st.m.vf_ntokens() == nt, "C16/C17: remove_token unregisters exactly that token");
+    assert!(is_live(t as usize) && st.m.vf_waiting() == w0 + 1, "C16: the token's memory is retired, not freed in place");
+    assert!(ledger::BAD_FREE == bad0 && is_live(st.batch[0]), "C16: nothing is reclaimed while the manager lock is held by remove_token");
+    mem::forget(st);
+}
+
+/// Drop for MemoryManager: everything the manager still holds is released (C17)
+pub(crate) unsafe fn s_mm_drop(nbatch: usize, wlen: usize) {
+    let st = mm_arbitrary(0, nbatch, wlen);
+    let MmState { m, .. } = st;
+    let bad0 = ledger::BAD_FREE;
+    drop(m);
+    assert!(ledger::BAD_FREE == bad0, "C16: double free at teardown");
+    assert!(ledger::LIVE_N == 0, "C17: retired objects still held by the manager are released when the queue goes away");
+}
+
+#[cfg(kani)]
+mod proofs {
+    use super::*;
+
+    macro_rules! hm {
+        ($name:ident, $unw:expr, $f:ident, $($arg:expr),*) => {
+            #[kani::proof]
+            #[kani::unwind($unw)]
+            #[kani::stub(crate::memory::ToFree::delete, crate::memory::verif_contracts::vf_delete_stub)]
+            fn $name() {
+                unsafe { $f($($arg),*) }
+            }
+        };
+    }
+    hm!(s13_free_t0_b1_w0, 26, s_mm_free, 0, 1, 0);
+    hm!(s13_free_t1_b1_w0, 26, s_mm_free, 1, 1, 0);
+    hm!(s13_free_t2_b2_w0, 26, s_mm_free, 2, 2, 0);
+    hm!(s13_free_t2_b0_w20, 26, s_mm_free, 2, 0, 20);
+    hm!(s13_free_t1_b1_w20, 26, s_mm_free, 1, 1, 20);
+    hm!(s13_tokens_t0, 26, s_mm_tokens, 0);
+    hm!(s13_tokens_t2, 26, s_mm_tokens, 2);
+    hm!(s13_drop_b1_w0, 26, s_mm_drop, 1, 0);
+    hm!(s13_drop_b0_w2, 26, s_mm_drop, 0, 2);
+
+    /// feasibility probe: deferred delete through the stored function pointer
+    #[kani::proof]
+    #[kani::unwind(4)]
+    #[kani::stub(crate::memory::ToFree::delete, crate::memory::verif_contracts::vf_delete_stub)]
+    fn s13_probe_delete() {
+        unsafe {
+            ledger::ON = true;
+            let m = MemoryManager::new();
+            let t = m.get_token();
+            let obj: *mut u64 = alloc::allocate(1);
+            m.vf_inner().tofree.push(ToFree::new(obj, 1));
+            let e: usize = kani::any();
+            m.vf_set_epoch(e);
+            let te: usize = kani::any();
+            MemoryManager::vf_set_token_epoch(t, te);
+            let obj2: *mut u64 = alloc::allocate(1);
+            let live0 = ledger::LIVE_N;
+            m.free(obj2, 1);
+            if te == e {
+                assert!(ledger::LIVE_N == live0 - 1, "C16: retired object reclaimed once every token announced the epoch");
+                assert!(m.vf_tofree() == 0);
+            } else {
+                assert!(ledger::LIVE_N == live0, "C16: nothing reclaimed while a token lags");
+                assert!(m.vf_tofree() == 1);
+            }
+            assert!(ledger::BAD_FREE == 0);
+            assert!(m.vf_waiting() == 1);
+            mem::forget(m);
+        }
+    }
+}
